@@ -539,6 +539,9 @@ func runScenario(sc *scenario, ks []kind) func() interface{} {
 		_ = sEnd
 		c := imapclient.New(cEnd, nil)
 		m := &model{state: "authenticated"}
+		if sc.Start == "not-authenticated" {
+			m.state = "not authenticated"
+		}
 		clientLines := 0
 		var acc []byte
 		syncHeaders, syncAnswered := 0, 0
@@ -584,7 +587,11 @@ func runScenario(sc *scenario, ks []kind) func() interface{} {
 		issued := 0
 		var handles []handle
 		vsched.Go("server", func() {
-			deliver("* PREAUTH [CAPABILITY IMAP4rev1 LITERAL- IDLE ENABLE IMAP4rev2 MOVE UIDPLUS ESEARCH UNSELECT] ready", nil)
+			if sc.Start == "not-authenticated" {
+				deliver("* OK [CAPABILITY IMAP4rev1 LITERAL- IDLE ENABLE IMAP4rev2 MOVE UIDPLUS ESEARCH UNSELECT] ready", nil)
+			} else {
+				deliver("* PREAUTH [CAPABILITY IMAP4rev1 LITERAL- IDLE ENABLE IMAP4rev2 MOVE UIDPLUS ESEARCH UNSELECT] ready", nil)
+			}
 			check("greeting", false)
 			tagN := 0
 			if sc.Start == "selected" || sc.UniCtx == "selected" || sc.UniCtx == "during-idle" {
@@ -885,6 +892,10 @@ func enumerate(ks []kind, thorough bool) []item {
 			for _, start := range []string{"authenticated", "selected"} {
 				items = append(items, item{Start: start, Cmds: append([]int{}, prefix...)})
 			}
+			if len(prefix) <= 2 {
+				// before authentication every command is refused: the state must not move
+				items = append(items, item{Start: "not-authenticated", Cmds: append([]int{}, prefix...)})
+			}
 		}
 		if len(prefix) > maxCmds {
 			return
@@ -952,6 +963,9 @@ func expand(it item, ks []kind, thorough bool, f func(sc *scenario)) {
 		return
 	}
 	outcomes := []outcome{{"OK", false}, {"OK", true}, {"NO", false}, {"NO", true}, {"BAD", false}}
+	if it.Start == "not-authenticated" {
+		outcomes = []outcome{{"NO", false}, {"BAD", false}}
+	}
 	if len(it.Cmds) >= 3 {
 		outcomes = []outcome{{"OK", false}, {"NO", true}, {"BAD", false}}
 	}
@@ -1119,7 +1133,7 @@ func main() {
 	run.Set("work_items", int64(len(items)))
 	run.Set("command_kinds", int64(len(ks)))
 	run.Exhaustive = true
-	run.Rule = "scenario = (start state, pipeline of <=2 (3 thorough) pairwise-unambiguous commands from 32 kinds (NOOP, three STATUS incl. two names differing by case only, LIST, 4 FETCH forms, STORE, SEARCH, ESEARCH, EXPUNGE, SELECT, CAPABILITY, two APPEND forms, COPY, ENABLE, UNSELECT, SORT, THREAD, GETQUOTA, GETMETADATA, NAMESPACE; a second LIST / SEARCH / EXPUNGE / FETCH / UID SORT / GETQUOTAROOT only behind the first of its ambiguity class and answered in issue order; a second ESEARCH behind the first one answered in any order since its data carries the tag; one FETCH answered in descending order), outcome per command in {OK, OK [code], NO, NO [code], BAD}, one interleaving of all response lines that keeps each command's own lines in order) or (context in {selected, authenticated, during a failing SELECT, during IDLE}, sequence of <=3 (4) unilateral responses from 9); each executed once on the real client (default schedule) with a state/mailbox comparison after every server line and a status/data comparison per command, then a final NOOP. states = scenarios, transitions = scheduling points, traces = executions"
+	run.Rule = "scenario = (start state in {authenticated, selected; not authenticated with every command refused}, pipeline of <=2 (3 thorough) pairwise-unambiguous commands from 32 kinds (NOOP, three STATUS incl. two names differing by case only, LIST, 4 FETCH forms, STORE, SEARCH, ESEARCH, EXPUNGE, SELECT, CAPABILITY, two APPEND forms, COPY, ENABLE, UNSELECT, SORT, THREAD, GETQUOTA, GETMETADATA, NAMESPACE; a second LIST / SEARCH / EXPUNGE / FETCH / UID SORT / GETQUOTAROOT only behind the first of its ambiguity class and answered in issue order; a second ESEARCH behind the first one answered in any order since its data carries the tag; one FETCH answered in descending order), outcome per command in {OK, OK [code], NO, NO [code], BAD}, one interleaving of all response lines that keeps each command's own lines in order) or (context in {selected, authenticated, during a failing SELECT, during IDLE}, sequence of <=3 (4) unilateral responses from 9); each executed once on the real client (default schedule) with a state/mailbox comparison after every server line and a status/data comparison per command, then a final NOOP. states = scenarios, transitions = scheduling points, traces = executions"
 	run.Assume("while a SELECT is in flight the mailbox summary is not compared (the transcript does not determine it)")
 	run.Assume("a failed SELECT in selected state leaves no mailbox selected (RFC 9051 §6.3.2); BYE alone does not change the reported state")
 	run.Finish()
